@@ -80,6 +80,10 @@ func (e Engine) Generate(cfg simkit.RunConfig) (any, bool) {
 		case "", "workload", "nofault", "reads", "ryw":
 			addReplicaReads(cfg.Seed, s)
 		}
+		switch strings.TrimSuffix(cfg.Mode, "-R") {
+		case "", "workload", "crashfaults", "reads", "gc", "lockretry":
+			addRareFaults(cfg.Seed, s)
+		}
 	}
 	return sc, ok
 }
